@@ -198,6 +198,22 @@ class C13(Monitor):
                     if p.endswith("/processed_results.csv") or p.endswith("/job_status.json") or p.endswith("/results.json"):
                         self.bad("refused_but_wrote", "resubmit-jobs on an incomplete submission changed results or job status",
                                  f"{d.get('op')} {p}")
+        elif kind == "exit" and vpid in self.cmds and vpid not in self.early:
+            # a resubmit-jobs command on a complete submission ended: whatever it did, it must not
+            # keep the submitter role (later commands - repeated resubmissions - could not act)
+            vp = w.vprocs[vpid]
+            sub = self.ctx.sub_for_abs(w.output)
+            if not vp.killed:
+                try:
+                    cfg = state.read_json(os.path.join(sub.out, "cluster_config.json")) or {}
+                except state.Unparsable:
+                    cfg = {}
+                others = [v for v in w.vprocs if v.alive and v is not vp and w.in_submitter_subtree(v)]
+                killed = [v for v in w.vprocs if v.killed and v.kill_reason != "reap" and w.in_submitter_subtree(v)]
+                if cfg.get("submitter") == vp.host and not others and not killed:
+                    self.bad("role_leaked_by_resubmit", "resubmit-jobs ended but kept the submitter role",
+                             f"resubmit-jobs {' '.join(self.cmds[vpid]['flags'])} rc={d.get('rc')} out={vp.stdout_text()[-80:]!r}; "
+                             f"cluster_config.json still names submitter {cfg.get('submitter')!r}")
         elif kind == "exit" and vpid in self.early:
             vp = w.vprocs[vpid]
             if d.get("rc") == 0:
